@@ -26,39 +26,80 @@ Fixpoint run_blocks (fuel : nat) (bs : list (option (list sir))) (s : mst) : fre
       end
   end.
 
-(* host-program discipline assumed by C05 (C09 owns qubit bookkeeping): inside a body, the
-   qubits created there are consumed there and no outer qubit is consumed; arrays with
-   initial values are created at top level only *)
-Fixpoint created (b : block) : list nat :=
-  match b with BNil => [] | BCons (SNewQubit q) r => q :: created r | BCons _ r => created r end.
-Fixpoint consumed (b : block) : list nat :=
-  match b with
-  | BNil => []
-  | BCons (SFree q) r => q :: consumed r
-  | BCons (SMeasFut q false _ _) r | BCons (SMeasNew q false _) r | BCons (SMeasReg q false _) r => q :: consumed r
-  | BCons _ r => consumed r
-  end.
-Definition subset (a b : list nat) : bool := forallb (fun x => existsb (Nat.eqb x) b) a.
+(* ---- host-program discipline assumed by the composed theorem of C05 *)
+Fixpoint ndel (q : nat) (l : list nat) : list nat :=
+  match l with [] => [] | x :: r => if Nat.eqb q x then r else x :: ndel q r end.
+Definition memn (q : nat) (l : list nat) : bool := existsb (Nat.eqb q) l.
 
-Definition balanced (b : block) : bool :=
-  subset (created b) (consumed b) && subset (consumed b) (created b).
-
-Fixpoint scoped (s : stmt) : bool :=
+(* qubits: inside a body, the qubits created there are consumed there and no other qubit is
+   consumed (C09 owns host/controller agreement on qubits); loc = created and not yet consumed *)
+Fixpoint qs (s : stmt) (loc : list nat) : option (list nat) :=
   match s with
-  | SIf _ _ _ _ b | SLoop _ _ _ _ _ b | SForeach _ _ _ b => balanced b && scoped_in b
-  | SLoopUntil _ _ b _ _ cl => balanced b && scoped_in b && balanced cl && scoped_in cl
-  | SEpr _ _ => false
+  | SNewQubit q => if memn q loc then None else Some (loc ++ [q])
+  | SFree q | SMeasFut q false _ _ | SMeasNew q false _ | SMeasReg q false _ =>
+      if memn q loc then Some (ndel q loc) else None
+  | SIf _ _ _ _ b | SLoop _ _ _ _ _ _ b | SForeach _ _ _ b =>
+      match qb b [] with Some [] => Some loc | _ => None end
+  | SLoopUntil _ _ b _ _ cl =>
+      match qb b [], qb cl [] with Some [], Some [] => Some loc | _, _ => None end
+  | SEpr _ _ | SFlush | SNewArray _ _ _ | SNewReg _ _ | SUAdd _ _ _ => None
+  | _ => Some loc
+  end
+with qb (b : block) (loc : list nat) : option (list nat) :=
+  match b with
+  | BNil => Some loc
+  | BCons s r => match qs s loc with Some l => qb r l | None => None end
+  end.
+Definition wf_body (b : block) : bool := match qb b [] with Some [] => true | _ => false end.
+
+(* no measurement into a register future anywhere inside *)
+Fixpoint noreg (s : stmt) : bool :=
+  match s with
+  | SMeasReg _ _ _ => false
+  | SIf _ _ _ _ b | SLoop _ _ _ _ _ _ b | SForeach _ _ _ b | SEpr _ b => bnoreg b
+  | SLoopUntil _ _ b _ _ cl => bnoreg b && bnoreg cl
   | _ => true
   end
-with scoped_in (b : block) : bool :=
+with bnoreg (b : block) : bool :=
+  match b with BNil => true | BCons s r => noreg s && bnoreg r end.
+
+(* a block that certainly emits commands (a loop_until whose body emits nothing is dropped by the
+   builder together with its cleanup code) *)
+Definition emits_stmt (s : stmt) : bool :=
+  match s with
+  | SNewQubit _ | SGate _ _ | SRot _ _ _ _ | STwo _ _ _ | SMeasFut _ _ _ _ | SMeasNew _ _ _
+  | SMeasReg _ _ _ | SFree _ | SFutAdd _ _ _ _ | SRegAdd _ _ _ => true
+  | _ => false
+  end.
+Fixpoint emits (b : block) : bool :=
+  match b with BNil => false | BCons s r => emits_stmt s || emits r end.
+
+(* statements covered by the composed theorem.  Register futures are measured only where the
+   measurement runs whenever the enclosing code runs: not under an `if`, not in a loop that may
+   run zero rounds, not in a foreach, not in a loop_until cleanup (the complement contains the
+   recorded finding C05:ret_reg-of-unreached-register-measurement) *)
+Fixpoint wfs (s : stmt) : bool :=
+  match s with
+  | SIf _ _ _ _ b => wf_body b && bnoreg b && bwfs b
+  | SLoop _ _ None a e _ b => wf_body b && bwfs b && (negb (Z.eqb a e) || bnoreg b)
+  | SLoop _ _ (Some _) _ _ _ _ => false
+  | SForeach _ _ _ b => wf_body b && bnoreg b && bwfs b
+  | SLoopUntil _ mx b _ _ cl =>
+      wf_body b && wf_body cl && bwfs b && bwfs cl && bnoreg cl && (Z.ltb 0 mx || bnoreg b) && emits b
+  | SEpr _ _ | SFlush | SNewReg _ _ | SUAdd _ _ _ => false
+  | _ => true
+  end
+with bwfs (b : block) : bool :=
+  match b with BNil => true | BCons s r => wfs s && bwfs r end.
+
+(* whole programs: the same, flushes between top-level statements *)
+Fixpoint wf_top (b : block) : bool :=
   match b with
   | BNil => true
-  | BCons (SNewArray _ _ _) _ => false
-  | BCons SFlush _ => false
-  | BCons s r => scoped s && scoped_in r
+  | BCons SFlush r => wf_top r
+  | BCons s r => wfs s && wf_top r
   end.
-Fixpoint scoped_top (b : block) : bool :=
-  match b with BNil => true | BCons s r => scoped s && scoped_top r end.
+Definition scoped_top := wf_top.
 
 (* every measurement into a register future of a block is reached when the block runs
    (the recorded finding C05:ret_reg-of-unreached-register-measurement is the complement) *)
